@@ -198,7 +198,10 @@ def sequential_outcomes(scn):
     for order in itertools.permutations(range(len(scn[3]))):
         b = prepare(scn)
         for i in order:
-            thread_body(scn[3][i])()
+            try:
+                thread_body(scn[3][i])()
+            except Exception:
+                pass  # (a call the library refuses, e.g. a hidden call: it leaves the cache as it is)
         s = cache_summary(b)
         outs.append(None if s is None else (s["resident"], s["usage"]))
     _seq_cache[scn[0]] = outs
